@@ -152,6 +152,33 @@ fn observe(role: Role, path: usize, bytes: &[u8], max_steps: usize, chunk: usize
                     }
                 }
             }
+            3 => {
+                // the one-shot reader used the sans-IO way: bytes arrive one at a time and the
+                // same typestate is asked again after every need-more
+                let (mut pos, mut avail) = (0usize, 0usize);
+                for _ in 0..max_steps {
+                    let st_ = loop {
+                        let mut s = &bytes[pos..avail];
+                        let before = s.len();
+                        let r = st.read_frame(&mut s);
+                        if matches!(r, Ok(None)) && avail < bytes.len() {
+                            avail += 1;
+                            continue;
+                        }
+                        let used = before - s.len();
+                        let step = step_of(r);
+                        if matches!(step, Step::Frame(_)) {
+                            pos += used;
+                        }
+                        break step;
+                    };
+                    let stop = !matches!(st_, Step::Frame(_));
+                    out.push(st_);
+                    if stop {
+                        break;
+                    }
+                }
+            }
             _ => {
                 let mut rd = ScriptReader::new(bytes, vec![chunk.max(1)], if chunk % 2 == 0 { PendPat::Never } else { PendPat::Alternate }, EndKind::Fin);
                 for _ in 0..max_steps {
@@ -218,7 +245,7 @@ fn check_history(rep: &mut Report, role: Role, hist: &[Sym], seed: u64) {
         expected.iter().map(|(s, e)| format!("{s:?}{}", match e { Expect::Accept => "+", Expect::Error(_) => "!", Expect::Unspecified => "?" })).collect::<Vec<_>>().join(",")
     );
     rep.eval(class.clone());
-    for path in 0..3usize {
+    for path in 0..4usize {
         for chunk in if path == 2 { vec![1usize, 2, 64] } else { vec![0] } {
             let obs = observe(role, path, &bytes, expected.len() + 1, chunk);
             rep.evaluations += 1;
@@ -244,7 +271,7 @@ fn check_history(rep: &mut Report, role: Role, hist: &[Sym], seed: u64) {
                     (Expect::Error(codes), other) => {
                         // a frame cut by the end of input is only observable as an error when the
                         // source can signal FIN (async path); sync paths must ask for more
-                        if *sym == Sym::TruncatedAtFin && path < 2 {
+                        if *sym == Sym::TruncatedAtFin && path != 2 {
                             if other != Some(&Step::NeedMore) {
                                 bad = Some(format!("step {i}: truncated frame on a sync path gave {other:?}"));
                             }
@@ -408,7 +435,7 @@ fn run_inner(a: &Args, shard: u64, shards: u64) -> Report {
         }
     }
     if shard == 0 {
-        rep.exhaustive_parts.push(format!("all frame histories of depth 1..={depth} over a 10-symbol alphabet on 4 typestates x 3 read paths"));
+        rep.exhaustive_parts.push(format!("all frame histories of depth 1..={depth} over a 10-symbol alphabet on 4 typestates x 4 read paths (slice, buffer, async, byte-by-byte retries on one typestate)"));
         check_error_codes(&mut rep);
         let mut r = Rng::derive(a.seed, 0x0C12);
         check_uni_types(&mut rep, &mut r);
